@@ -85,6 +85,10 @@ def parse_verus_stderr(err):
         m = re.match(r"^\s*(?:-->|:::)\s+(.*?):(\d+):(\d+)\s*$", ln)
         if m:
             cur["locs"].append((m.group(1), int(m.group(2)), int(m.group(3))))
+            cur["file"] = m.group(1)
+        m = re.match(r"^\s*(\d+)\s*\|", ln)
+        if m and cur.get("file"):
+            cur.setdefault("gutter", []).append((cur["file"], int(m.group(1)), 0))
     return blocks
 
 def classify(msg):
@@ -173,7 +177,7 @@ def run_unit(unit, extra_roots=None, variant=None, rlimit=None, seed=None, tag="
                     if mt:
                         b["clause_props"] = mt.group(1).split(); break
                     k -= 1
-        for (f, ln, col) in b["locs"]:
+        for (f, ln, col) in b["locs"] + b.get("gutter", []):
             for fd in m["functions"]:
                 if fd["gen_lines"][0] <= ln <= fd["gen_lines"][1]:
                     fn = fd["fn"]
@@ -316,6 +320,7 @@ def main():
     t0 = time.time()
     undecided, violations, known_hits = [], [], []
     notes = []
+    lost_hint_fns = set()
     functions, trusted, samples, cmds = [], set(), [], []
     obligations = discharged = 0
     bounded = []
@@ -330,10 +335,20 @@ def main():
                 r = run_unit(unit, rlimit=100, seed=seed if seed else None)
                 unit_results[-1] = r
         if r["status"] == "undecided":
-            undecided.append(f"unit {unit}: {r['reason']}")
+            # the prover cannot decide (lost anchor / unsupported construct / rlimit): fall back to the witness finder on the real code
+            wf = cfg.get("witness")
+            w = run_witness(wf, pid, {"fn": ""}, None) if wf else None
+            if w and w.get("found"):
+                violations.append(("witness-fallback", unit, {"fn": "witness:" + unit, "kind": "witness", "clause": w["input"][:300], "text": "prover undecided: " + r["reason"][:1500], "witness": w}))
+            else:
+                undecided.append(f"unit {unit}: {r['reason']}" + ("; witness finder found no failing input within its bound" if w else ""))
             continue
         tplp = template_fn_props(unit)
         serves = r["map"]["serves"]
+        for lh in r["map"].get("lost_hints", []):
+            lost_hint_fns.add(lh["fn"]); notes.append(f"unit {unit}: ghost hint anchor lost in {lh['fn']}: `{lh['anchor']}` (hint skipped)")
+        for sk in r["map"].get("skipped_rewrites", []):
+            notes.append(f"unit {unit}: rewrite {sk['rule']} not applied in {sk['fn']} (construct `{sk['text']}` absent)")
         cmds.append(r["cmd"])
         trusted.update(r["trusted"])
         smt_ms += r.get("smt_ms", 0)
@@ -492,8 +507,14 @@ def main():
         wf = cfg.get("witness")
         if engine == "native":
             witness = {"found": True, "input": f.get("clause"), "how": "native exhaustive enumerator on the real code", "output_tail": f.get("text", "")[-1500:]}
+        elif engine == "witness-fallback":
+            witness = f.get("witness")
         elif wf:
             witness = run_witness(wf, pid, f, path)
+        if fn in lost_hint_fns and not (witness and witness.get("found")):
+            # the proof may fail only because a ghost hint lost its anchor: undecided unless the real code exhibits a failing input
+            undecided.append(f"{fn}: obligations fail but a ghost hint anchor was lost and no failing input was found: " + "; ".join(f"[{x['kind']}] {(x.get('clause') or '')[:80]}" for x in fl))
+            continue
         rep = {"property": pid, "engine": engine, "unit": unit, "function": fn,
                "failed_obligations": [{"kind": x["kind"], "clause": x.get("clause"), "repo_location": x.get("repo"), "verifier_output": x.get("text")} for x in fl],
                "witness": witness,
